@@ -397,6 +397,9 @@ func (ds *Dataset) StoreEntitiesWithTransaction(
 				}
 				if IsEntityEqual(prevLocalJSON, jsonData, prevLocalEntity, e) {
 					isDifferentLocally = false
+					// the version stored earlier in this batch is now the current version,
+					// the previously committed version is no longer the one to compare with
+					isDifferent = false
 				}
 
 			} else {
